@@ -23,10 +23,22 @@ def objName : Cls → String
   | .object n => n
   | _ => ""
 
-/-- `_serialize_recursive` on an element in a child position: a class becomes a `$ref`, an element equal
+/-- is this class occurrence "the primary" (`object_class is not primary`, `data is root`) — by name and equality -/
+def isPrimary (primary e : Elem) : Bool :=
+  isObjectClass primary.cls && objName primary.cls == objName e.cls && elemEq primary e
+
+/-- `data is root`; `root = None` outside `serialize_json` -/
+def isRoot : Option Elem → Elem → Bool
+  | none, _ => false
+  | some p, e => isPrimary p e
+
+/-- the top-level schema is not a member of `definitions`: it is referred to as `#` -/
+def refRoot : JVal := .obj [("$ref", .str "#")]
+
+/-- `_serialize_recursive` on an element in a child position: a class becomes a `$ref` (`#` for the top-level class), an element equal
     to one of the caller's definitions becomes a `$ref` to it, anything else its own schema `body` -/
-def childRef (defs : List (String × Elem)) (e : Elem) (body : JVal) : JVal :=
-  if isObjectClass e.cls then refTo (objName e.cls)
+def childRef (root : Option Elem) (defs : List (String × Elem)) (e : Elem) (body : JVal) : JVal :=
+  if isObjectClass e.cls then (if isRoot root e then refRoot else refTo (objName e.cls))
   else match defs.find? (fun d => elemEq d.2 e) with
     | some d => refTo d.1
     | none => body
@@ -135,27 +147,27 @@ def serCore (c : Cls) (kw : Kw) (k : SerKids) : JVal :=
     (comp ++ notP ++ typ ++ title).foldl (fun d f => dictSet d f.1 f.2) d)
 
 mutual
-def serElem (defs : List (String × Elem)) : Elem → JVal
+def serElem (root : Option Elem) (defs : List (String × Elem)) : Elem → JVal
   | .mk c kw items addI cont props pats addP pn deps els =>
     serCore c kw
-      { items := serList defs items
-        addItems := serOpt defs addI
-        contains := serOpt defs cont
-        props := serKeyed defs props
-        patProps := serKeyed defs pats
-        addProps := serOpt defs addP
-        propNames := serOpt defs pn
-        deps := serKeyed defs deps
-        elements := serList defs els }
-def serOpt (defs : List (String × Elem)) : Option Elem → Option JVal
+      { items := serList root defs items
+        addItems := serOpt root defs addI
+        contains := serOpt root defs cont
+        props := serKeyed root defs props
+        patProps := serKeyed root defs pats
+        addProps := serOpt root defs addP
+        propNames := serOpt root defs pn
+        deps := serKeyed root defs deps
+        elements := serList root defs els }
+def serOpt (root : Option Elem) (defs : List (String × Elem)) : Option Elem → Option JVal
   | none => none
-  | some e => some (childRef defs e (serElem defs e))
-def serList (defs : List (String × Elem)) : List Elem → List JVal
+  | some e => some (childRef root defs e (serElem root defs e))
+def serList (root : Option Elem) (defs : List (String × Elem)) : List Elem → List JVal
   | [] => []
-  | e :: es => childRef defs e (serElem defs e) :: serList defs es
-def serKeyed (defs : List (String × Elem)) : List (Key × Elem) → List (Key × JVal)
+  | e :: es => childRef root defs e (serElem root defs e) :: serList root defs es
+def serKeyed (root : Option Elem) (defs : List (String × Elem)) : List (Key × Elem) → List (Key × JVal)
   | [] => []
-  | (k, e) :: r => (k, childRef defs e (serElem defs e)) :: serKeyed defs r
+  | (k, e) :: r => (k, childRef root defs e (serElem root defs e)) :: serKeyed root defs r
 end
 
 /-! ### `get_children` (pre-order, in the order of the generated `paths`) -/
@@ -189,20 +201,16 @@ inductive SerErr where
   | noElements
 deriving DecidableEq, Repr
 
-/-- is this class occurrence "the primary" (`object_class is not primary`) — by name and equality -/
-def isPrimary (primary e : Elem) : Bool :=
-  isObjectClass primary.cls && objName primary.cls == objName e.cls && elemEq primary e
-
 /-- `serialize_json(*elements, definitions=defs)` -/
 def serializeJson (elements : List Elem) (defs : List (String × Elem)) : Except SerErr JVal :=
   match elements with
   | [] => .error .noElements
   | primary :: _ =>
-    match serElem defs primary with
+    match serElem (some primary) defs primary with
     | .obj body =>
       let classDefs := (objectClasses elements).foldl (fun d oc =>
-        if isPrimary primary oc then d else dictSet d (objName oc.cls) (serElem defs oc)) ([] : List (String × JVal))
-      let allDefs := defs.foldl (fun d kv => dictSet d kv.1 (serElem defs kv.2)) classDefs
+        if isPrimary primary oc then d else dictSet d (objName oc.cls) (serElem (some primary) defs oc)) ([] : List (String × JVal))
+      let allDefs := defs.foldl (fun d kv => dictSet d kv.1 (serElem (some primary) defs kv.2)) classDefs
       .ok (.obj (if allDefs.isEmpty then body else dictSet body "definitions" (.obj allDefs)))
     | _ => .error .primaryIsFalse
 
